@@ -480,8 +480,15 @@ func init() {
 		// ghost: number of buffered bytes only grows by peeking, and a successful Peek(n) leaves at least n buffered
 		cur := e.get(st, "BR", "(Array Int Int)")
 		nb := e.sc.havoc("buffered_after", "Int")
-		e.sc.assume(and(sx(">=", nb, sel(cur, args[0].T)), implies(eq(res.Tup[1].T, "0"), sx(">=", nb, args[1].T))), "bufio.Reader: buffered bytes after Peek")
+		e.sc.assume(and(sx(">=", nb, sel(cur, args[0].T)), implies(eq(res.Tup[1].T, "0"), sx(">=", nb, args[1].T)),
+			implies(and(sx("<=", args[1].T, sel(cur, args[0].T)), sx(">=", args[1].T, "0")), eq(res.Tup[1].T, "0"))), "bufio.Reader: buffered bytes after Peek; peeking what is already buffered cannot fail")
 		e.setStore(st, "BR", "(Array Int Int)", args[0].T, nb, "bufio buffered count")
+		// every Peek is a view of the same unread stream prefix (ghost content BRC[reader])
+		e.sc.declare("BRC", "(declare-fun BRC (Int) (Array Int Int))")
+		r8, rs8 := e.elemRegion(types.Typ[types.Uint8])
+		pk := res.Tup[0].T
+		e.sc.assume(fmt.Sprintf("(forall ((i Int)) (! (=> (and (<= 0 i) (< i (s_len %s))) (= (select (select %s (s_arr %s)) (at (s_off %s) i)) (select (BRC %s) i))) :pattern ((select (select %s (s_arr %s)) (at (s_off %s) i)))))",
+			pk, e.get(st, r8, rs8), pk, pk, args[0].T, e.get(st, r8, rs8), pk, pk), "bufio.Reader.Peek returns a prefix of the unread stream")
 		e.sc.assume(implies(eq(res.Tup[1].T, "0"), eq(sx("s_len", res.Tup[0].T), args[1].T)), "bufio.Reader.Peek(n): exactly n bytes unless an error is returned")
 		e.sc.assume(sx("<=", sx("s_len", res.Tup[0].T), ite(sx(">", args[1].T, "0"), args[1].T, "0")), "bufio.Reader.Peek(n): at most n bytes")
 		return res
